@@ -353,10 +353,21 @@ struct Scn {
             if (assign_end && prom) {
                 bool done = false;
                 if constexpr (pwd_ok) {
-                    // promise_with_default::operator= over a promise that still owns the future drops that future as well
+                    // move-assignment over a promise_with_default* that still owns the future (through the class's own operator=):
+                    // the replaced promise ends as if destroyed, its future gets the default value
                     if (pwd_kind == "def") {
                         *static_cast<promise_with_default<T> *>(prom) = promise_with_default<T>(promise<T>(), P<T>::make(pwd_val + 1));
                         done = true;
+                    }
+                    if constexpr (std::is_same_v<T, int>) {
+                        if (pwd_kind == "defv") {
+                            *static_cast<promise_with_default_v<int, PWD_V> *>(prom) = promise_with_default_v<int, PWD_V>();
+                            done = true;
+                        }
+                        if (pwd_kind == "defvp") {
+                            *static_cast<promise_with_default_vp<int, &pwd_vp_cell> *>(prom) = promise_with_default_vp<int, &pwd_vp_cell>();
+                            done = true;
+                        }
                     }
                 }
                 if (!done) *prom = promise<T>();
